@@ -13,8 +13,17 @@
    another error (t_err), reported by a separate later call or TOGETHER WITH
    THE LAST TOKEN (t_with), as xml.TokenReader permits and readers built with
    xmlstream.Wrap or stanza.Message.Wrap do.  Every theorem below that mentions
-   tm holds for all four. *)
-From XV Require Import lib.Bytes gen.Mux C14.Model C14.Proofs.
+   tm holds for all four.
+
+   One mux, several stanzas: [handle] is the dispatch of a stanza by a mux that is
+   in the middle of nothing else.  [handle_gen N] is the same code when handlers
+   may, at any point between their calls to Token(), hand another stanza to the
+   same mux (hb_nest; N j is the outcome of that other dispatch, None if there is
+   no stanza j); [handle_in r ns elems e] instantiates N with the dispatches of
+   the stanzas elems themselves, to any depth.  All the dispatches share is the
+   mux: the registry and the name space, which nothing changes after New
+   (C14_mux_has_no_per_call_state, read from the source). *)
+From XV Require Import lib.Bytes gen.Mux C14.Model C14.Proofs C14.Reentry.
 
 (* Every lookup (Handler, IQHandler, MessageHandler, PresenceHandler) returns the
    handler of a registered pattern of the element's own kind and type that
@@ -217,6 +226,47 @@ Theorem C14_renaming_invariance : forall fs fl : bytes -> bytes,
   forall r t typ n, lookup (rename_reg fs fl r) t typ (rename fs fl n) = lookup r t typ n.
 Proof. exact lookup_rename. Qed.
 Print Assumptions C14_renaming_invariance.
+
+(* Dispatch of a stanza does not depend on what else the mux is in the middle of:
+   for every N - whatever other dispatches the stanza's handlers start on the same
+   mux, at whatever point of their reading, and whatever those do - the handlers
+   invoked for this stanza, the tokens each of them obtains, the replies written
+   and the result are those of [handle] (strip forgets the records EvNested of
+   the other dispatches, nothing else). *)
+Theorem C14_dispatch_is_independent_of_other_dispatches : forall N r ns sn attrs toks tm script,
+  strip (handle_gen N r ns sn attrs toks tm script) = handle r ns sn attrs toks tm script.
+Proof. exact thm_independent. Qed.
+Print Assumptions C14_dispatch_is_independent_of_other_dispatches.
+
+(* ... so the clause "every handler chosen for a child is handed the complete
+   stanza from its start element" holds for a message or presence on a mux that
+   is re-entered by its handlers (or shared with another session whose stanza is
+   dispatched while a handler of this one is parked between two reads) *)
+Theorem C14_reentrant_child_dispatch_replays_whole_stanza : forall N ops r ns sn attrs toks tm script k h rest,
+  new_mux ops = Some r -> valid_ids ops ->
+  lookup_top r sn = None -> stanza_is sn ns = true -> snd sn = child_local k -> child_hdr k sn attrs = Some h ->
+  skip_elem 0 toks = Some rest ->
+  strip (handle_gen N r ns sn attrs toks tm script) = children_spec r k sn (h_type h) toks script.
+Proof. exact thm_children_reentrant. Qed.
+Print Assumptions C14_reentrant_child_dispatch_replays_whole_stanza.
+
+(* ... and for stanzas dispatched from handlers of stanzas dispatched from
+   handlers ...: the dispatch of e and every dispatch nested in it, at any depth,
+   is - once the records of the dispatches nested in IT are set aside - the
+   dispatch of that stanza alone (all_solo, C14/Reentry.v). *)
+Theorem C14_every_dispatch_on_a_shared_mux_is_a_dispatch_alone : forall r ns elems e,
+  all_solo r ns elems e (handle_in r ns elems e).
+Proof. exact thm_all_solo. Qed.
+Print Assumptions C14_every_dispatch_on_a_shared_mux_is_a_dispatch_alone.
+
+(* What ties this to the code: no field of the shared ServeMux is assigned,
+   incremented, sliced, appended to or has its address taken by anything but New
+   and the options it applies, and forChildren allocates its replay buffer itself
+   (make): state of one dispatch does not live on the mux. *)
+Theorem C14_mux_has_no_per_call_state :
+  servemux_fields_touched_after_new = [] /\ forchildren_buffer_is_local = true.
+Proof. exact (conj mux_is_immutable_after_new replay_buffer_is_per_call). Qed.
+Print Assumptions C14_mux_has_no_per_call_state.
 
 (* The tables the proofs rely on are the ones in the source today. *)
 Theorem C14_tables :
